@@ -64,9 +64,18 @@ def portable_post(code, result, _engine):
     return out
 
 
+def portable_configs():
+    """the version_tuple argument defaults to the host's triple; callers that pass one give (major, minor) as often as a triple"""
+    out = {}
+    for h, cfg in host_configs().items():
+        out[h] = cfg
+        out[h + "/pair"] = dict(cfg, version_tuple=cfg["version_tuple"][:2])
+    return out
+
+
 contract(
     "xdis.codetype:codeType2Portable",
-    configs=host_configs,
+    configs=portable_configs,
     params={"code": NativeCode()},
     ensures=portable_post,
 )
